@@ -49,12 +49,11 @@ P = {
  "C10": ("proof", "4.C10", "Coq proof over executable model + differential correspondence (every code point as needle)", "First-member-of-orbit characterisation of index_rune and the byte-pattern characterisation of IndexByte proved; IndexRune, ContainsRune, IndexByte, IndexByteASCII and the unexported indexRuneCase/indexRune/indexRune2/indexByte models are proved to refine them for every rune/byte argument, every cut-over function and both NativeIndex values (self-synchronisation of UTF-8 proved for arbitrary bytes; FoldMap/ToUpperLower candidate sets proved equal to the folding orbit on the regenerated tables). LastIndexByte (byte walks for non-letters and plain letters, the code-point walk for K k S s) is proved to return the last raw offset at which one of the byte patterns starts (C10_lastindexbyte_refines, C10_last_index_byte_spec). Every orbit-bearing code point and a stride of the others run as needle and haystack member."),
  "C11": ("proof", "4.C11", "Coq proof over executable model + differential correspondence (threshold grid)", "First/last code point fold-equal to some code point of chars proved for Spec; the structure-faithful models of IndexAny, ContainsAny and LastIndexAny (Impl7: makeASCIISet and the asciiSet byte scan with its bail-out when chars contains K k S s and s is not ASCII, the single-character shortcuts, the per-character IndexRune search with truncation, the walk over s testing IndexRune(chars, c), the right-to-left walks with DecodeLastRune) are PROVED to compute them on every pair of byte strings (C11_indexany_refines, C11_lastindexany_refines: every cut-over, both NativeIndex values; never Panic, never OutOfFuel). The strategies are crossed by a (len s, len chars) grid in the correspondence run."),
  "C12": ("proof", "4.C12", "Coq proof over executable model + differential correspondence", "Greedy unfolding of Count and the exact split of Cut proved for Spec; Count's general loop and Cut (both package shapes) proved to compute them around the proved model of Index itself (resuming after the matched text of the haystack, whose width differs from the needle's); Count's single-ASCII-byte path (the accelerated byte count's scalar definition plus the occurrences of U+212A / U+017F for K k S s) is proved to count the code points in the byte's folding orbit, so C12_count_full_refines holds for EVERY needle."),
- "C13": ("other", "4.C13", "Coq proof for every pure-Go kernel body (unbounded length) + guard-page sweep of the amd64 assembly against the same scalar definition",
-         "PARTIAL: the pure-Go kernel bodies (portable, no-POPCNT fallback, standard-library based) are proved equal to the scalar definition for every length and content; "
-         "the amd64 assembly is NOT proved: it is swept (lengths 0..200 + page-crossing lengths quick / 0..4352 thorough, all alignments, flush against PROT_NONE pages both sides, "
-         "needle-filled surroundings, 256x256 byte pairs per code path) on the real CPU with faults caught. A machine model of the assembly is future work (DESIGN 4.C13)."),
+ "C13": ("proof", "4.C13", "Coq proof about the amd64 assembly itself (instruction lists regenerated from the .s files by tools/asm2prog.py on every run, executed by the machine model X86.v) and about every pure-Go kernel body, for every length / address / alignment / surrounding memory, with and without AVX2; + guard-page sweep on the real CPU + machine model validated against the real kernels",
+         "Proved (Properties/C13.v): IndexNonASCII/IndexByteNonASCII, IndexByte/IndexByteString (wrappers' letter test and both bodies) and Count/CountString (POPCNT hand-over, letter test, both counting bodies) of the go1.22+ file set return index_non_ascii / k_index_byte / k_count, the scalar definitions, started from arbitrary register contents; Done also means every load stayed inside the 4 KiB pages holding a byte of the argument, the only store was the result slot, no address or counter wrapped, no jump read an undefined flag. The portable, no-POPCNT and standard-library based Go bodies are proved equal to the same definitions. "
+         "Modelled, not verified: the x86 instruction semantics of X86.v (validated on every run: the extracted interpreter is run on the translated programs at 6 placements x 3 surroundings x 4 AVX2/POPCNT combinations x 2 entry points against what the real kernels returned), the translator tools/asm2prog.py, the pre-1.22 file set and the GOAMD64=v3 preprocessing of the assembly (translated and swept, not proved), arm64 assembly. Search for a failing input when a proof breaks: the guard-page sweep (lengths 0..200 + page-crossing lengths quick / 0..4352 thorough, all alignments, flush against PROT_NONE pages on both sides, needle-filled surroundings)."),
  "C14": ("other", "4.C14", "Coq proof that all Go-level kernel variants equal one scalar definition + the correspondence corpus executed under 6 configurations and compared case by case",
-         "PARTIAL: configurations = runtime AVX2, cpu.avx2=off, cpu.popcnt=off, both off, GOAMD64=v3, GOARCH=386 (portable file set, executed natively), plus the standard-library based kernels compiled on the host. "
+         "PARTIAL: the assembly kernels' AVX2 and SSE paths and the Go fallbacks are each proved equal to the same scalar definitions (C13: the theorems hold for avx2 = true and false, popcnt = true; Kernels.v for the Go bodies), so those back ends agree on every input; the GOAMD64=v3 preprocessing and the exported functions above the kernels are compared dynamically: configurations = runtime AVX2, cpu.avx2=off, cpu.popcnt=off, both off, GOAMD64=v3, GOARCH=386 (portable file set, executed natively), plus the standard-library based kernels compiled on the host. "
          "Real non-x86 hardware and a CPU without AVX2 (the linknamed runtime IndexString still sees AVX2) are out of reach."),
  "C15": ("proof", "4.C15", "Coq proof (all Spec theorems are over utf8.DecodeRune segmentation, no well-formedness hypothesis) + ill-formed corpus", "Every Spec characterisation holds for arbitrary bytes; the decoder model is validated against unicode/utf8; all 23 functions run on a dense ill-formed corpus and exhaustive small alphabets."),
  "C16": ("proof", "4.C16", "Coq proof (key invariance under re-casing) + relation evaluated on the implementation", "All results are functions of the folded key; offsets are the same code-point index. The relation is also evaluated directly on both packages with width-changing orbit members."),
